@@ -5,6 +5,7 @@ import (
 	"errors"
 	"fmt"
 	"strings"
+	"sync/atomic"
 	"testing"
 	"time"
 
@@ -36,14 +37,22 @@ type Case struct {
 	QuotaFull  int    `json:"quota_full"`  // index of an activator whose listen client is already at its mapping quota (-1 none)
 	Picks      []int  `json:"picks"`
 	FailAt     int    `json:"fail_at"` // index (execution order) of the storage write that fails; -1 none
-	Steps      []Step `json:"steps,omitempty"`
-	MaxMap     int    `json:"max_mappings,omitempty"`
+	// TierFail k>0: the k-th (1-based, release order) gated cache-TIER write on a code/claim key returns an
+	// error (below the hybrid facade: shared or node-local tier); 0 none. Exclusive with FailAt.
+	TierFail int `json:"tier_fail,omitempty"`
+	// ExpirePoint: the code gets a short activation TTL and the first task that reaches this operation
+	// sleeps there until the code's activation window has ended ("" none):
+	// claim | idmark | mapping | index | code
+	ExpirePoint string `json:"expire_point,omitempty"`
+	Steps       []Step `json:"steps,omitempty"`
+	MaxMap      int    `json:"max_mappings,omitempty"`
 }
 
 // selCache decides per key whether a cache-tier operation is a scheduling point.
 type selCache struct {
 	*vkit.GateCache
 	sel func(key string) bool
+	pre func(op, key string) // called by the task when it arrives at a write, before it parks
 }
 
 func (s *selCache) Get(k string) (any, error) {
@@ -53,6 +62,9 @@ func (s *selCache) Get(k string) (any, error) {
 	return s.GateCache.Get(k)
 }
 func (s *selCache) Set(k string, v any, ttl time.Duration) error {
+	if s.pre != nil {
+		s.pre("Set", k)
+	}
 	if !s.sel(k) {
 		return s.GateCache.Storage.Set(k, v, ttl)
 	}
@@ -71,11 +83,35 @@ func (s *selCache) Exists(k string) (bool, error) {
 	return s.GateCache.Exists(k)
 }
 func (s *selCache) SetNX(k string, v any, ttl time.Duration) (bool, error) {
+	if s.pre != nil {
+		s.pre("SetNX", k)
+	}
 	if !s.sel(k) {
 		return s.GateCache.Storage.SetNX(k, v, ttl)
 	}
 	return s.GateCache.SetNX(k, v, ttl)
 }
+
+// expiryTTL is the activation TTL of codes that are made to expire while an activation is in flight.
+const expiryTTL = 90 * time.Millisecond
+
+func expirePointMatches(point, op, key string) bool {
+	switch point {
+	case "claim":
+		return op == "SetNX" && strings.HasPrefix(key, "tunnox:runtime:conncode:claim:")
+	case "idmark":
+		return op == "SetNX" && strings.HasPrefix(key, "tunnox:id:used:pmap:")
+	case "mapping":
+		return op == "Set" && strings.HasPrefix(key, pmPrefix)
+	case "index":
+		return op == "Set" && strings.HasPrefix(key, clientIdxPfx)
+	case "code":
+		return op == "Set" && strings.HasPrefix(key, "tunnox:runtime:conncode:code:")
+	}
+	return false
+}
+
+var expirePoints = []string{"claim", "idmark", "mapping", "index", "code"}
 
 func granSel(gran string) func(string) bool {
 	switch gran {
@@ -152,7 +188,11 @@ func runConcurrent(c Case, choose func(int, []string) int) outcome {
 	defer w.close()
 	var o outcome
 	// ---- set-up (ungated) --------------------------------------------------------
-	code, err := w.nodes[0].cc.CreateConnectionCode(&services.CreateConnectionCodeRequest{TargetClientID: targetClient, TargetAddress: targetAddr, ActivationTTL: time.Hour, CreatedBy: "verif"})
+	ttl := time.Hour
+	if c.ExpirePoint != "" {
+		ttl = expiryTTL
+	}
+	code, err := w.nodes[0].cc.CreateConnectionCode(&services.CreateConnectionCodeRequest{TargetClientID: targetClient, TargetAddress: targetAddr, ActivationTTL: ttl, CreatedBy: "verif"})
 	if err != nil {
 		o.key, o.detail = "C06/harness/setup-failed", err.Error()
 		return o
@@ -170,6 +210,24 @@ func runConcurrent(c Case, choose func(int, []string) int) outcome {
 	// ---- concurrent phase --------------------------------------------------------
 	acts := make([]*actRes, c.NAct)
 	var revErr error
+	var expired atomic.Bool
+	if c.ExpirePoint != "" {
+		w.pre = func(op, key string) {
+			if expirePointMatches(c.ExpirePoint, op, key) && expired.CompareAndSwap(false, true) {
+				// the activation window ends while this activation is in flight
+				if d := time.Until(code.ActivationExpiresAt.Add(12 * time.Millisecond)); d > 0 {
+					time.Sleep(d)
+				}
+			}
+		}
+	}
+	if c.TierFail > 0 {
+		w.g.FailAt = c.TierFail - 1
+		w.g.FailFilter = func(s vkit.Step, write bool) bool {
+			return write && strings.HasPrefix(s.Key, "tunnox:runtime:conncode:")
+		}
+		c.FailAt = -1
+	}
 	w.g.Activate()
 	w.store.arm(c.FailAt)
 	for i := 0; i < c.NAct; i++ {
@@ -268,6 +326,11 @@ func runConcurrent(c Case, choose func(int, []string) int) outcome {
 		}
 	}
 	o.failedOp = faultClass(w.store.Failed)
+	for _, st := range o.log {
+		if st.Failed {
+			o.failedOp = "tier:" + st.Op + ":" + strings.TrimPrefix(normKey(st.Key), "tunnox:")
+		}
+	}
 	if w.store.Failed != "" {
 		// between "mapping record stored" and "code record (both copies) updated"?
 		seenPM, idx := false, -1
@@ -296,6 +359,12 @@ func runConcurrent(c Case, choose func(int, []string) int) outcome {
 		prog += "/quota-full"
 	}
 	o.class = prog + "/" + c.Gran
+	if c.ExpirePoint != "" {
+		o.class += "/expires-in-flight@" + c.ExpirePoint
+	}
+	if c.TierFail > 0 {
+		o.class += "/tier-fault"
+	}
 	// ---- oracle at quiescence ------------------------------------------------------
 	sched := "; schedule: " + normSteps(o.log)
 	if o.failedOp != "" {
@@ -338,7 +407,10 @@ func runConcurrent(c Case, choose func(int, []string) int) outcome {
 		return o
 	}
 	// 2. a successful revoke and a successful activation exclude each other
-	if o.revokeOK && o.successes >= 1 {
+	// (not when the code is made to expire in flight: a revoke whose claim was computed before the expiry and
+	// lands after it finds the winner's claim expired and "revokes" by deleting the expired record; the
+	// mapping was created inside the window, so nothing the property forbids has happened)
+	if o.revokeOK && o.successes >= 1 && c.ExpirePoint == "" {
 		if bothReadFirst(winners[0].read, winners[0].firstWrite, revRead, revWrite) {
 			fail("C06/revoked-code-activated/overlapping-read-modify-write", fmt.Sprintf("RevokeConnectionCode and ActivateConnectionCode both reported success; %d mapping(s) exist for the revoked code", len(mine)))
 		} else {
@@ -355,6 +427,9 @@ func runConcurrent(c Case, choose func(int, []string) int) outcome {
 		ms := byListen[a.listen]
 		if a.err != nil || a.mapping == nil {
 			cause := "no-fault/" + errCode(a.err)
+			if c.ExpirePoint != "" {
+				cause += "/code-expired-in-flight@" + c.ExpirePoint
+			}
 			if o.failedOp != "" {
 				cause = "fault@" + o.failedOp
 			}
@@ -426,6 +501,9 @@ func runConcurrent(c Case, choose func(int, []string) int) outcome {
 			rec := byCode
 			if name == "by-id" {
 				rec = byID
+			}
+			if rec == nil && c.ExpirePoint != "" {
+				continue // the activation window has ended meanwhile: the record is gone with its TTL
 			}
 			if rec == nil || !rec.IsActivated || rec.MappingID == nil || *rec.MappingID != a.mapping.ID || rec.ActivatedBy == nil || *rec.ActivatedBy != a.listen || rec.IsRevoked {
 				// root cause: did another call that had read the code before the winner wrote it write the record too?
@@ -653,13 +731,21 @@ func TestExhaustive(t *testing.T) {
 func TestFaultEnumeration(t *testing.T) {
 	total := 0
 	job := 0
-	for _, base := range []Case{
-		{Mode: "concurrent", NAct: 1, Gran: "all", QuotaFull: -1},
-		{Mode: "concurrent", NAct: 2, Gran: "code", QuotaFull: -1},
-		{Mode: "concurrent", NAct: 2, Gran: "code", QuotaFull: -1, SecondNode: true},
-		{Mode: "concurrent", NAct: 1, Revoke: true, Gran: "code", QuotaFull: -1},
-		{Mode: "concurrent", NAct: 2, Gran: "code", QuotaFull: -1, Cluster: true},
+	type fbase struct {
+		c    Case
+		tier bool // the failing write is a cache-tier write below the hybrid facade (shared or node-local tier)
+	}
+	for _, fb := range []fbase{
+		{Case{Mode: "concurrent", NAct: 1, Gran: "all", QuotaFull: -1}, false},
+		{Case{Mode: "concurrent", NAct: 2, Gran: "code", QuotaFull: -1}, false},
+		{Case{Mode: "concurrent", NAct: 2, Gran: "code", QuotaFull: -1, SecondNode: true}, false},
+		{Case{Mode: "concurrent", NAct: 1, Revoke: true, Gran: "code", QuotaFull: -1}, false},
+		{Case{Mode: "concurrent", NAct: 2, Gran: "code", QuotaFull: -1, Cluster: true}, false},
+		{Case{Mode: "concurrent", NAct: 2, Gran: "code", QuotaFull: -1, Cluster: true}, true},
+		{Case{Mode: "concurrent", NAct: 1, Revoke: true, Gran: "code", QuotaFull: -1, Cluster: true}, true},
+		{Case{Mode: "concurrent", NAct: 2, Gran: "code", QuotaFull: -1}, true},
 	} {
+		base := fb.c
 		complete := true
 		dead := 1 << 30 // smallest write index seen that no schedule reaches
 		for failAt := 0; failAt < 40; failAt++ {
@@ -669,6 +755,9 @@ func TestFaultEnumeration(t *testing.T) {
 			}
 			c := base
 			c.FailAt = failAt
+			if fb.tier {
+				c.FailAt, c.TierFail = -1, failAt+1
+			}
 			d := newDFS(nil, -1)
 			fired := false
 			for {
@@ -691,9 +780,40 @@ func TestFaultEnumeration(t *testing.T) {
 				dead = failAt
 			}
 		}
-		vkit.Exhaustive(fmt.Sprintf("single-write-fault x schedules:%dA/rev=%v/2nodes=%v/cluster=%v/gran=%s", base.NAct, base.Revoke, base.SecondNode, base.Cluster, base.Gran), complete)
+		vkit.Exhaustive(fmt.Sprintf("single-write-fault x schedules:%dA/rev=%v/2nodes=%v/cluster=%v/gran=%s/tier-level=%v", base.NAct, base.Revoke, base.SecondNode, base.Cluster, base.Gran, fb.tier), complete)
 	}
 	vkit.AddExtra("fault_enum_runs", int64(total))
+}
+
+// TestExpiryInFlight: the code's activation window ends while an activation is between two of its
+// storage operations (every expiry point x small programs x their first schedules).
+func TestExpiryInFlight(t *testing.T) {
+	job := 0
+	for _, base := range []Case{
+		{Mode: "concurrent", NAct: 1, Gran: "code", QuotaFull: -1, FailAt: -1},
+		{Mode: "concurrent", NAct: 1, Gran: "code", QuotaFull: -1, FailAt: -1, Cluster: true},
+		{Mode: "concurrent", NAct: 2, Gran: "code", QuotaFull: -1, FailAt: -1, Cluster: true},
+		{Mode: "concurrent", NAct: 1, Revoke: true, Gran: "code", QuotaFull: -1, FailAt: -1},
+	} {
+		for _, pt := range expirePoints {
+			job++
+			if !vkit.Mine(job) {
+				continue
+			}
+			c := base
+			c.ExpirePoint = pt
+			d := newDFS(nil, -1)
+			for n := 0; n < vkit.Pick(4, 40); n++ {
+				o := runConcurrent(c, d.Choose)
+				cc := c
+				cc.Picks = d.Trace()
+				report(t, cc, o)
+				if !d.Next() {
+					break
+				}
+			}
+		}
+	}
 }
 
 // TestRandomSchedules: rapid-drawn program, granularity, pick sequence and single fault.
@@ -707,6 +827,12 @@ func TestRandomSchedules(t *testing.T) {
 			Gran:       rapid.SampledFrom([]string{"code", "shared", "shared", "all"}).Draw(t, "gran"),
 			QuotaFull:  rapid.SampledFrom([]int{-1, -1, -1, 0, 1}).Draw(t, "quotaFull"),
 			FailAt:     rapid.SampledFrom([]int{-1, -1, 0, 1, 2, 3, 4, 5, 6, 7, 8, 9, 10, 11, 12, 13, 14, 15, 16, 18, 20, 24}).Draw(t, "failAt"),
+		}
+		if rapid.IntRange(0, 3).Draw(t, "tierFaultInsteadOfFacadeFault") == 0 {
+			c.FailAt, c.TierFail = -1, rapid.IntRange(1, 8).Draw(t, "tierFail")
+		}
+		if rapid.IntRange(0, 13).Draw(t, "expiresInFlight") == 0 {
+			c.ExpirePoint = rapid.SampledFrom(expirePoints).Draw(t, "expirePoint")
 		}
 		c.Picks = rapid.SliceOfN(rapid.IntRange(0, 3), 0, 60).Draw(t, "picks")
 		p := &vkit.Picks{List: c.Picks}
